@@ -952,7 +952,7 @@ class Interp:
         if ck in ("PtrToPtr", "FnPtrToPtr"):
             return a if type(a) is Pt else Pt(None)
         if ck == "Transmute":
-            if type(a) is Pt:
+            if type(a) is Pt and t.tag not in ("Int", "Uint"):
                 return a
             if type(a) is Md and a.kind == "box" and t.tag in ("RawPtr", "Ref"):
                 return a.d["ptr"]
